@@ -436,3 +436,127 @@ def write_replay(prop, n, payload):
     p = os.path.join(d, '%s-%d.json' % (prop, n))
     json.dump(payload, open(p, 'w'), indent=1)
     return p
+
+
+# ------------------------------------------------------------------------------------------------
+# operation streams for HBTrace (C08) and node accounting (C12)
+# ------------------------------------------------------------------------------------------------
+ACQ = {'acq', 'acqrel', 'sc'}
+REL = {'rel', 'acqrel', 'sc'}
+ACQUIRE_OPS = {'LockS': 'S', 'LockSIX': 'SIX', 'LockX': 'X', 'TryLockS': 'S', 'TryLockSIX': 'SIX', 'TryLockX': 'X',
+               'PrepareRead': 'S'}
+
+
+def prog_thread_ids(prog_line):
+    """(n, final_id, init_id) of a program line as the runtime numbers its virtual threads"""
+    toks = prog_line.split()
+    n = sum(1 for x in toks if x == '|')
+    has_final = '||' in toks
+    has_init = '|<' in toks
+    final_id = n + 1 if has_final else 0
+    init_id = (n + (2 if has_final else 1)) if has_init else 0
+    return n, final_id, init_id
+
+
+def hb_stream(ex, prog_line=None):
+    """Operation stream + derived critical-section begin/end events for HBTrace.
+    Returns (events, ok) - ok False if the execution cannot be projected (hand-over, too many locations)."""
+    out = []
+    locs = {}
+    glock = {}      # guard -> lock id
+    gsec = {}       # guard -> (thread, sid, mode) if owning
+    pend = {}
+    started = set()
+    threads = set()
+    final_t = None
+    for e in ex.events:
+        if 't' in e and e.get('t', 0) > 0:
+            threads.add(e['t'])
+    ok = True
+    sid_counter = [0]
+
+    def newsid():
+        sid_counter[0] += 1
+        return sid_counter[0]
+
+    def begin(t, g, m, lk):
+        s = newsid()
+        gsec[g] = (t, s, m, lk)
+        out.append({'e': 'begin', 't': t, 'sid': s, 'm': m, 'lk': lk})
+
+    def end(g):
+        if g in gsec:
+            t, s, m, lk = gsec.pop(g)
+            out.append({'e': 'end', 't': t, 'sid': s, 'm': m, 'lk': lk})
+
+    n_thr, final_id, init_id = prog_thread_ids(prog_line) if prog_line else (0, 0, 0)
+    for e in ex.events:
+        k = e.get('e')
+        t = e.get('t', 0)
+        if t > 0 and t not in started and k in ('op', 'call', 'ret'):
+            started.add(t)
+            if t == final_id:      # runs after every other thread was joined
+                for u in range(1, n_thr + 1):
+                    out.append({'e': 'sync', 't': t, 'u': u})
+                if init_id:
+                    out.append({'e': 'sync', 't': t, 'u': init_id})
+            elif init_id and t != init_id:   # started after the init thread finished
+                out.append({'e': 'sync', 't': t, 'u': init_id})
+        if k == 'op':
+            kind = e['k']
+            if kind == 'fence':
+                out.append({'e': 'fence', 't': t, 'loc': 0, 'acq': int(e['mo'] in ACQ), 'rel': int(e['mo'] in REL)})
+                continue
+            name = e['loc']
+            if name not in locs:
+                locs[name] = len(locs) + 1
+            loc = locs[name]
+            mo = e['mo']
+            if kind in ('load', 'casf'):
+                out.append({'e': 'ld', 't': t, 'loc': loc, 'acq': int(mo in ACQ), 'rel': 0})
+            elif kind == 'store':
+                out.append({'e': 'st', 't': t, 'loc': loc, 'acq': 0, 'rel': int(mo in REL)})
+            else:
+                out.append({'e': 'rmw', 't': t, 'loc': loc, 'acq': int(mo in ACQ), 'rel': int(mo in REL)})
+        elif k == 'call':
+            pend[t] = e
+            op = e['op']
+            if op in ('LockS', 'LockSIX', 'LockX', 'PrepareRead', 'GetVersion'):
+                glock[e['g']] = e['l']
+            elif op == 'Destroy':
+                if e['g'] in gsec and gsec[e['g']][0] != t:
+                    ok = False
+                end(e['g'])
+            elif op in ('Upgrade', 'Downgrade'):
+                glock[e['h']] = glock.get(e['g'], 0)
+                end(e['g'])
+            elif op in ('TryLockS', 'TryLockSIX', 'TryLockX'):
+                glock[e['h']] = glock.get(e['g'], 0)
+            elif op == 'MoveAssign':
+                end(e['h'])
+        elif k == 'ret':
+            op = e['op']
+            if op in ACQUIRE_OPS and e.get('b') == 1:
+                g = e['g'] if op in ('LockS', 'LockSIX', 'LockX', 'PrepareRead') else e['h']
+                begin(t, g, ACQUIRE_OPS[op], glock.get(g, 0))
+            elif op == 'Upgrade' and e.get('b') == 1:
+                begin(t, e['h'], 'X', glock.get(e['h'], 0))
+            elif op == 'Downgrade' and e.get('b') == 1:
+                begin(t, e['h'], 'SIX', glock.get(e['h'], 0))
+            elif op in ('MoveCtor', 'MoveAssign'):
+                if e['g'] in gsec:
+                    gsec[e['h']] = gsec.pop(e['g'])
+                glock[e['h']] = glock.get(e['g'], 0)
+            elif op == 'Sync':
+                ok = False
+            pend.pop(t, None)
+        elif k == 'texit':
+            pass
+    if len(locs) > 10 or (threads and max(threads) > 5):
+        ok = False
+    return out, ok
+
+
+def add_join_syncs(ex, stream):
+    """the final thread runs after all others were joined; an init thread runs before the others start"""
+    return stream
